@@ -185,6 +185,12 @@ def check_read_batch(ctx, path, spec, model_rows, rng, desc):
         if kind.startswith("slice"):
             arg = slice(a, b, step)
             sel = np.arange(N)[arg]
+        elif kind == "tuple" and rng.random() < 0.3:
+            # a tuple is the argument list of slice(): (start, stop, step) is a strided range
+            step = int(rng.integers(1, 5))
+            kind += "-step"
+            arg = (a, b, step)
+            sel = np.arange(N)[a:b:step]
         else:
             arg = (a, b)
             sel = np.arange(N)[a:b]
